@@ -7,9 +7,9 @@ ENGINE_INVS = "TypeOK AttemptBound NoEmptyAction StackShape InvC01 InvC02 InvC03
 # property -> (model-checking families quick, thorough, generator modes quick, thorough)
 # an MC family entry is (Family, MaxN, MaxVisits)
 PLAN = {
-    "C01": dict(mc_q=[("single", 3, 4), ("singlenil", 2, 4), ("flowerr", 2, 3)],
-                mc_t=[("single", 5, 4), ("singlenil", 3, 4), ("singleeres", 3, 4), ("flowerr", 2, 4), ("flow2", 1, 5)],
-                gen_q=("single,plain,err", 150), gen_t=("single,plain,err,nest", 3000)),
+    "C01": dict(mc_q=[("single", 3, 4), ("singlenil", 2, 4), ("singlecancel", 2, 4), ("flowerr", 2, 3)],
+                mc_t=[("single", 5, 4), ("singlenil", 3, 4), ("singleeres", 3, 4), ("singlecancel", 3, 4), ("flowerr", 2, 4), ("flow2", 1, 5), ("flowcancel", 2, 4)],
+                gen_q=("single,plain,err,cancel", 120), gen_t=("single,plain,err,nest,cancel,cancelenum", 2500)),
     "C02": dict(mc_q=[("single", 3, 4), ("singlecancel", 2, 4)],
                 mc_t=[("single", 6, 4), ("singlecancel", 3, 4), ("flowerr", 2, 4)],
                 gen_q=("single,plain,err", 200), gen_t=("single,plain,err", 5000)),
